@@ -1589,7 +1589,8 @@ class Engine:
             return VSeq(lambda k: z3.If(c, a.at(k), b.at(k)), z3.If(c, a.n, b.n), a.kind, esort=a.esort)
         if isinstance(a, VTuple) and isinstance(b, VTuple) and len(a.items) == len(b.items):
             return VTuple([self.ite(c, x, y, node) for x, y in zip(a.items, b.items)])
-        if isinstance(a, (VOpaque, VNone)) and isinstance(b, (VOpaque, VNone)):
+        if isinstance(a, (VOpaque, VNone)) or isinstance(b, (VOpaque, VNone)):
+            # at least one untracked value: the result is an untracked value (the other side injected)
             return VOpaque(z3.If(c, self.models.to_val(self, a), self.models.to_val(self, b)), tag="ite")
         raise OutOfSubset(node, f"if-expression over {a!r} / {b!r} in a spec")
 
@@ -1751,7 +1752,11 @@ class Engine:
         self.heap = heap0
         self.spec_env = dict(env0)
         try:
-            return self.eval(node, frame)
+            v = self.eval(node, frame)
+            if isinstance(v, VRef) and isinstance(heap0.get(v.addr), (VDict, VSet)):
+                # old(<mutable container>): the CONTENT at entry, not a reference that would be read in the new heap
+                v = heap0[v.addr]
+            return v
         finally:
             self.heap, self.spec_env = saved_heap, saved_env
 
